@@ -211,6 +211,8 @@ def _case(ctx, index, G, uni, table):
     wargs = [{'kind': rng.choice(['float', 'float', 'np.float64', 'int', 'default']), 'values': [_wl_value(rng)]},
              {'kind': rng.choice(['list', 'array']), 'values': [_wl_value(rng)]},
              {'kind': rng.choice(['list', 'array']), 'values': vec}]
+    if rng.random() < 0.04:
+        wargs[0]['kind'] = 'zero_dim'          # numpy 0-d array: a scalar by shape (known finding, bounded minority)
     if wargs[0]['kind'] == 'int':
         wargs[0]['values'] = [float(rng.randint(1, 30))]
     if wargs[0]['kind'] == 'default':
@@ -235,7 +237,7 @@ def generate(ctx):
     import periodictable as pt
     from ..gen import compounds as G
     uni = _state['uni']
-    n = ctx.scale(400, 3000)
+    n = ctx.scale(1000, 3000)
     for j in range(n):
         index = j * ctx.nshards + ctx.shard
         yield 'composite', _case(ctx, index, G, uni, pt.elements)
@@ -269,19 +271,21 @@ def _wl_arg(w):
         return np.float64(vals[0])
     if kind == 'int':
         return int(vals[0])
+    if kind == 'zero_dim':
+        return np.array(float(vals[0]))
     if kind == 'list':
         return [float(v) for v in vals]
     return np.array(vals, dtype=float)
 
 
-def _as3(ctx, what, res):
+def _as3(violation, what, res):
     try:
         a, b, c = res
     except Exception:
-        ctx.violation('%s: result is not a triple: %r' % (what, res), symptom='structure', route=what)
+        violation('%s: result is not a triple: %r' % (what, res), symptom='structure', route=what)
         return None
     if a is None or b is None or c is None:
-        ctx.violation('%s: result contains None although every atom has neutron data' % what, symptom='none', route=what)
+        violation('%s: result contains None although every atom has neutron data' % what, symptom='none', route=what)
         return None
     return (a, b, c)
 
@@ -298,10 +302,22 @@ def _model_dict(case, weights):
     return d
 
 
+class _Sink(object):
+    """Stands in for ctx during a sibling probe: swallows counters, collects violation messages."""
+
+    def __init__(self):
+        self.msgs = []
+
+    def violation(self, msg, **detail):
+        self.msgs.append(msg)
+
+    def evaluated(self, *a, **k):
+        pass
+
+    count = observe = evaluated
+
+
 def check_composite(ctx, case):
-    import numpy as np
-    import periodictable as pt
-    from periodictable import nsf
     uni = _state['uni']
     built = [_build_material(m) for m in case['materials']]
     mats = [built[i] for i in case['order']]
@@ -319,8 +335,29 @@ def check_composite(ctx, case):
     ctx.count('lists')
     ctx.count('materials.n%d' % len(mats))
     sig = [tuple(keysets[i] for i in case['order']), tuple(case['order'])]
-
     for w in case['wavelengths']:
+        extra = {'wl_kind': w['kind'], 'wl_len': len(w['values'])}
+        if w['kind'] == 'zero_dim':
+            # sibling for the classifier: the same block with the wavelength as a Python float
+            sink = _Sink()
+            _run_block(sink, case, mats, dict(w, kind='float'), [], {})
+            extra['sibling_scalar_ok'] = not sink.msgs
+        _run_block(ctx, case, mats, w, sig, extra)
+    ctx.distinct_case(tuple(sig))
+
+
+def _run_block(ctx, case, mats, w, sig, extra):
+    """One wavelength argument: build the calculator, apply it to every (weights, density) and compare
+    each application with the direct route."""
+    import numpy as np
+    import periodictable as pt
+    from periodictable import nsf
+
+    def violation(msg, **detail):
+        detail.update(extra)
+        ctx.violation(msg, **detail)
+
+    if True:
         wl = _wl_arg(w)
         shape = np.shape(wl) if wl is not None else ()
         label = 'wavelength(%s, n=%d)' % (w['kind'], len(w['values']))
@@ -328,9 +365,9 @@ def check_composite(ctx, case):
         try:
             calc = nsf.neutron_composite_sld(mats) if wl is None else nsf.neutron_composite_sld(mats, wavelength=wl)
         except ContractBreach as exc:
-            ctx.violation('%s: postcondition failed while building the calculator: %s' % (label, str(exc)[:500]),
-                          symptom='contract', route='composite')
-            continue
+            violation('%s: postcondition failed while building the calculator: %s' % (label, str(exc)[:500]),
+                      symptom='contract', route='composite')
+            return
         ctx.count('calculators')
         ctx.count('wl_kind.%s.n%d' % (w['kind'], len(w['values'])))
         apps = list(w['apps']) + [w['apps'][0]]               # the first application is repeated at the end
@@ -346,11 +383,11 @@ def check_composite(ctx, case):
             try:
                 got = calc(wts, rho) if app['density_positional'] else calc(wts, density=rho)
             except ContractBreach as exc:
-                ctx.violation('%s: postcondition failed in the calculator: %s' % (what, str(exc)[:500]),
-                              symptom='contract', route='composite')
+                violation('%s: postcondition failed in the calculator: %s' % (what, str(exc)[:500]),
+                          symptom='contract', route='composite')
                 continue
             if not np.array_equal(wts, wts_before):
-                ctx.violation('%s: the calculator modified the weight vector' % what, symptom='mutated-argument')
+                violation('%s: the calculator modified the weight vector' % what, symptom='mutated-argument')
             # direct route: sum_i w_i * material_i by Formula arithmetic, as the property writes it
             tot = pt.formula()
             for wi, m in zip(app['weights'], mats):
@@ -359,12 +396,12 @@ def check_composite(ctx, case):
             try:
                 want = nsf.neutron_sld(tot, density=rho, **kw)
             except ContractBreach as exc:
-                ctx.violation('%s: postcondition failed in the direct route: %s' % (what, str(exc)[:500]),
-                              symptom='contract', route='direct')
+                violation('%s: postcondition failed in the direct route: %s' % (what, str(exc)[:500]),
+                          symptom='contract', route='direct')
                 continue
             ctx.count('applications')
-            got = _as3(ctx, what + ' [composite]', got)
-            want = _as3(ctx, what + ' [direct]', want)
+            got = _as3(violation, what + ' [composite]', got)
+            want = _as3(violation, what + ' [direct]', want)
             if got is None or want is None:
                 continue
             vacuum = (sum(app['weights']) == 0) or (rho == 0)
@@ -374,41 +411,41 @@ def check_composite(ctx, case):
                 ctx.evaluated(2, 'vacuum')
                 for route, val in (('composite', got), ('direct', want)):
                     if not all(np.all(np.asarray(x, dtype=float) == 0) for x in val):
-                        ctx.violation('%s: %s route does not return zeros for the vacuum case: %r' % (what, route, val),
-                                      symptom='vacuum', route=route)
+                        violation('%s: %s route does not return zeros for the vacuum case: %r' % (what, route, val),
+                                  symptom='vacuum', route=route)
                 continue
             # shapes: every output of the calculator is shaped like the wavelength argument
             ctx.evaluated(what='shape')
             shapes = [np.shape(x) for x in got]
             if any(s != shape for s in shapes):
-                ctx.violation('%s: calculator output shapes %r, wavelength argument has shape %r' % (what, shapes, shape),
-                              symptom='shape', route='composite', shapes=[list(s) for s in shapes], wl_kind=w['kind'],
-                              wl_len=len(w['values']))
-                continue
-            dshapes = [np.shape(x) for x in want]
-            if any(s != shape for s in dshapes):
-                ctx.violation('%s: direct route output shapes %r, wavelength argument has shape %r' % (what, dshapes, shape),
-                              symptom='shape', route='direct', shapes=[list(s) for s in dshapes], wl_kind=w['kind'],
-                              wl_len=len(w['values']))
+                violation('%s: calculator output shapes %r, wavelength argument has shape %r' % (what, shapes, shape),
+                          symptom='shape', route='composite', shapes=[list(s) for s in shapes],
+                          calculator_values=[np.asarray(v, dtype=float).reshape(-1).tolist()[:8] for v in got],
+                          direct_values=[np.asarray(v, dtype=float).reshape(-1).tolist()[:8] for v in want])
                 continue
             g = np.array([np.asarray(x, dtype=float).reshape(-1) for x in got])
-            x = np.array([np.asarray(v, dtype=float).reshape(-1) for v in want])
-            ok = _compare(ctx, what, g, x, case, app, wl, rho)
+            try:
+                # the direct route only has to be comparable entry by entry (its own shape is C04's subject)
+                x = np.array([np.broadcast_to(np.asarray(v, dtype=float).reshape(-1), g.shape[1:]) for v in want])
+            except ValueError:
+                violation('%s: direct route output shapes %r cannot be compared with wavelength shape %r'
+                          % (what, [np.shape(v) for v in want], shape), symptom='shape', route='direct')
+                continue
+            ok = _compare(ctx, violation, what, g, x, case, app, wl, rho)
             if j == 0:
                 first = g
             elif j == len(apps) - 1 and first is not None and ok:
                 ctx.evaluated(what='reapplication')
                 if not np.array_equal(first, g, equal_nan=True):
-                    ctx.violation('%s: the same calculator gives a different result when applied again: %r then %r'
-                                  % (what, first.tolist(), g.tolist()), symptom='stateful', route='composite')
+                    violation('%s: the same calculator gives a different result when applied again: %r then %r'
+                              % (what, first.tolist(), g.tolist()), symptom='stateful', route='composite')
             if np.any(x[2] == 0) or np.any(g[2] == 0):
                 ctx.count('reach.incoherent_exactly_zero')
         if snapshot is not None and not np.array_equal(snapshot, np.asarray(wl)):
-            ctx.violation('%s: the wavelength argument was modified' % label, symptom='mutated-argument')
-    ctx.distinct_case(tuple(sig))
+            violation('%s: the wavelength argument was modified' % label, symptom='mutated-argument')
 
 
-def _compare(ctx, what, g, x, case, app, wl, rho):
+def _compare(ctx, violation, what, g, x, case, app, wl, rho):
     import numpy as np
     from periodictable import nsf
     ctx.evaluated(3, 'value')
@@ -440,9 +477,9 @@ def _compare(ctx, what, g, x, case, app, wl, rho):
         diag['formula_arithmetic_agrees_with_multiset'] = bool(np.allclose(a, x, rtol=1e-9, atol=0))
     except Exception as exc:
         diag['direct_via_multiset_dict'] = 'raised %s: %s' % (type(exc).__name__, exc)
-    ctx.violation('%s: %s differs: calculator %r, direct %r (rel. error %.3g; wavelength entry %d)'
-                  % (what, NAMES[i], float(g[i, j]), float(x[i, j]), float(relerr[i, j]), j),
-                  symptom='value', output=NAMES[i], got=g[:, j].tolist(), want=x[:, j].tolist(), **diag)
+    violation('%s: %s differs: calculator %r, direct %r (rel. error %.3g; wavelength entry %d)'
+              % (what, NAMES[i], float(g[i, j]), float(x[i, j]), float(relerr[i, j]), j),
+              symptom='value', route='composite', output=NAMES[i], got=g[:, j].tolist(), want=x[:, j].tolist(), **diag)
     return False
 
 
@@ -476,8 +513,15 @@ def finish(ctx):
     ctx.require('lists_with_repeated_material', 1, 'no list with a repeated material')
     for Z, A, _ in uni.edep:
         ctx.require('seen.edep.%d-%d' % (Z, A), 1, 'energy-dependent entry never used')
-    ctx.require('lists', 1000 if not ctx.thorough() else 30000, 'fewer material lists than the floor of the tier')
+    ctx.require('lists', 3000 if not ctx.thorough() else 40000, 'fewer material lists than the floor of the tier')
 
 
 def classify(rec):
+    d = rec.get('detail') or {}
+    # the calculator takes a 0-d numpy array for a vector (np.isscalar is False) and applies weights[:, None]
+    # to per-material scalars; same mechanism only: wavelength passed as 0-d array, shape symptom in the
+    # calculator route, and the sibling case with the same wavelength as a Python float passes.
+    if (d.get('wl_kind') == 'zero_dim' and d.get('route') == 'composite' and d.get('symptom') == 'shape'
+            and d.get('sibling_scalar_ok') is True):
+        return 'c17.zero-dim-wavelength'
     return None
